@@ -49,7 +49,9 @@ Inductive proto := PJson | PYaml | PMsgpack.
 Record leaf_cfg := mkleafcfg {
   lc_bool_identity : bool;      (* _ret_bool: 'value is True or value is False' rather than 'value in (True, False)' *)
   lc_int_from_float : bool;     (* _ret_number / msgpack integer_from_bytes: Integer members get int(value) for integral floats, refuse the others *)
-  lc_null_object_none : bool    (* _from_dict_value: a null ComplexModel member is None, not _doc_to_object(None) = [] *)
+  lc_null_object_none : bool;   (* _from_dict_value: a null ComplexModel / Array member is None, not _doc_to_object(None) = [] *)
+  lc_int_refuses_containers : bool  (* msgpack integer_from_bytes: a list or a map is refused (JSON / YAML _ret_number always does);
+                                       decides no type: under validator='soft' a passed-through container fails validate_native *)
 }.
 Definition leaf_cfg_ok (c : leaf_cfg) : bool := lc_bool_identity c && lc_int_from_float c && lc_null_object_none c.
 
@@ -159,7 +161,8 @@ Record dcfg := mkdcfg {
   d_ignore_wrappers : bool;              (* the protocol's ignore_wrappers (default True) *)
   d_leaf : leaf_cfg;
   d_rd : dprim -> text -> out nv;        (* from_unicode(cls, <str>) *)
-  d_rdb : dprim -> text -> out nv        (* from_unicode(cls, <bytes>) *)
+  d_rdb : dprim -> text -> out nv;       (* from_unicode(ByteArray, <bytes>, binary_encoding) *)
+  d_dec : text -> option text            (* bytes.decode(string_encoding or 'utf8'); None = UnicodeError *)
 }.
 
 (** iterating a document node the way 'for x in doc' does *)
@@ -219,16 +222,30 @@ Section Dict.
 
   Definition is_strlike (d : jv) : bool := match d with JStr _ | JBytes _ => true | _ => false end.
 
-  (** HierDictDocument.validate (+ JsonDocument.validate), called under validator='soft' *)
+  (** HierDictDocument.validate (+ JsonDocument.validate), called under validator='soft':
+      Unicode members want text or bytes; members transported as text (Date) want text or
+      bytes unless null; JSON wants a str there *)
   Definition validate_pre (p : dprim) (nullable : bool) (d : jv) : bool :=
     (match d, nullable with
      | JNull, true => true
-     | _, _ => match p with DText => is_strlike d | _ => true end
+     | JNull, false => match p with DText => false | _ => true end
+     | _, _ => match p with DText | DDate => is_strlike d | _ => true end
      end)
     && (match d_proto C, p with
-        | PJson, DDate => match d with JStr _ => true | _ => false end
+        | PJson, DDate => match d with JStr _ | JNull => true | _ => false end
         | _, _ => true
         end).
+
+  (** text that arrived as a byte string is decoded before it is validated and parsed
+      (not for ByteArray members); UnicodeError -> ValidationError *)
+  Definition norm_bytes (p : dprim) (d : jv) : out jv :=
+    match d with
+    | JBytes b => match p with
+                  | DBytes => Ok d
+                  | _ => match d_dec C b with Some s => Ok (JStr s) | None => VFault end
+                  end
+    | _ => Ok d
+    end.
 
   (** _ret_number for a member that is not an Integer (Double), on a non-null value *)
   Definition ret_number (d : jv) : out nv :=
@@ -250,8 +267,7 @@ Section Dict.
       | DText =>
           match d with
           | JStr s => Ok (NText s)
-          | JBytes b => d_rdb C DText b                               (* unicode_from_bytes *)
-          | _ => Ok (NRaw d)                                          (* retval = inst *)
+          | _ => Ok (NRaw d)                                          (* retval = inst (bytes were decoded before) *)
           end
       | DBytes =>
           match d_proto C with
@@ -282,7 +298,8 @@ Section Dict.
           | PMsgpack =>                                               (* MessagePackDocument.integer_from_bytes *)
               match d with
               | JStr s => d_rd C p s
-              | JBytes b => d_rdb C p b
+              | JList _ | JMap _ | JBytes _ =>
+                  if lc_int_refuses_containers (d_leaf C) then VFault else Ok (NRaw d)
               | JFlt f => if lc_int_from_float (d_leaf C)
                           then match f with FInt z => Ok (NInt z) | _ => VFault end
                           else Ok (NFlt f)
@@ -307,12 +324,7 @@ Section Dict.
     | NNone => if nullable then Ok tt else VFault
     | _ =>
       match p with
-      | DDouble =>
-          match v with
-          | NFlt FNan => Crash InvalidOperation                       (* nan > Decimal('-inf') *)
-          | NFlt FInf => VFault                                       (* inf < Decimal('inf') is False *)
-          | _ => Ok tt
-          end
+      | DDouble => Ok tt                                              (* NaN and the infinities: judged by the declared range, none here *)
       | DInt lo hi =>
           match v with
           | NInt z => if in_range lo hi z then Ok tt else VFault
@@ -332,7 +344,8 @@ Section Dict.
   Definition leaf_in (p : dprim) (nullable : bool) (d : jv) : out nv :=
     if d_soft C && negb (validate_pre p nullable d) then VFault
     else
-      do v <- leaf_raw p d;
+      do d' <- norm_bytes p d;
+      do v <- leaf_raw p d';
       if d_soft C then do _ <- validate_native p nullable v; Ok v else Ok v.
 
   (** the wrapper dict of _doc_to_object when ignore_wrappers is off: the class to build and
@@ -391,17 +404,12 @@ Section Dict.
         end
     end.
 
-  (** _check_freq_dict: members of a wrapped Array type are checked against the (default)
-      occurrence bounds of the Array's own member, i.e. not at all *)
+  (** _check_freq_dict: every member, arrays included, against its own occurrence bounds (the
+      items of a wrapped array are counted by the array itself, against the default bounds
+      of its member: never violated here) *)
   Definition dfreq_ok (fields : list dfield) (freq : list text) : bool :=
-    forallb (fun f => match df_ty f with
-                      | DArr _ => if dmulti f then
-                                    let n := dcount (df_name f) freq in
-                                    (df_min f <=? n) && match df_max f with Some m => n <=? m | None => true end
-                                  else true
-                      | _ => let n := dcount (df_name f) freq in
-                             (df_min f <=? n) && match df_max f with Some m => n <=? m | None => true end
-                      end) fields.
+    forallb (fun f => let n := dcount (df_name f) freq in
+                      (df_min f <=? n) && match df_max f with Some m => n <=? m | None => true end) fields.
 
   (** _doc_to_object(cls, doc) for an Array class and a document that is not null *)
   Definition d2o_arr (rec : dty -> bool -> jv -> out nv) (e : dty) (d : jv) : out nv :=
@@ -446,9 +454,9 @@ Section Dict.
 
   (** the ComplexModelBase branch of _from_dict_value *)
   Definition complex_in (rec : dty -> bool -> jv -> out nv) (t : dty) (d : jv) : out nv :=
-    match t, d with
-    | DRef _, JNull => if lc_null_object_none (d_leaf C) then Ok NNone else d2o rec t d
-    | _, _ => d2o rec t d
+    match d with
+    | JNull => if lc_null_object_none (d_leaf C) then Ok NNone else d2o rec t d
+    | _ => d2o rec t d
     end.
 
   (** cls.validate_native(cls, retval) for a ComplexModelBase class: ModelBase.validate_native *)
